@@ -619,8 +619,8 @@ class Driver:
     def next_cfg(self, world):
         sched, gen, fault, cfg = self.s["sched"], self.s["gen"], self.s["fault"], self.cfg
         live = sorted(t for t, v in world.tasks.items() if v["status"] == "live" and v.get("kind") != "brute")
-        if world.grammars and sched.random() < 0.025:
-            return {"op": "cfg_churn", "n": sched.choice([30, 80, 150]), "seed": gen.getrandbits(30)}
+        if world.grammars and sched.random() < 0.015:
+            return {"op": "cfg_churn", "n": sched.choice([30, 60, 120]), "seed": gen.getrandbits(30)}
         if not world.grammars or (len(world.grammars) < 2 and sched.random() < 0.1):
             self.ng += 1
             return {"op": "cfg_new", "slot": "g%d" % (self.ng - 1), "productions": self.grammar()}
